@@ -1492,7 +1492,9 @@ func c11Kinds(ser string) []string {
 	return ks
 }
 
-func c11IsCompound(ser string) bool { return strings.Contains(ser, "CC ") || strings.Contains(ser, "CF ") }
+func c11IsCompound(ser string) bool {
+	return strings.Contains(ser, "CC ") || strings.Contains(ser, "CF ")
+}
 
 func c11Process(ctx *Ctx, res *Result, judge *c11Judge, cases []*c11Case) bool {
 	if err := c11Oracle(ctx, cases); err != nil {
